@@ -30,6 +30,7 @@ type SpecEnv struct {
 	hdr  *ssa.BasicBlock
 	at   ssa.Instruction // program point for local-variable lookup (call-site assertions)
 	soft bool            // failures are recorded in errs only (scope probing)
+	bound map[string]bool // names bound by enclosing quantifiers (shadow locals)
 	errs []string
 }
 
@@ -231,6 +232,11 @@ func (env *SpecEnv) typeOf(e ast.Expr) types.Type {
 
 func (env *SpecEnv) lookupIdent(name string) (Val, bool) {
 	c := env.c
+	if env.bound[name] {
+		if v, ok := env.vars[name]; ok {
+			return v, true
+		}
+	}
 	if env.fr != nil && env.hdr != nil {
 		// a parameter that is reassigned in the loop is a loop-carried value at the header
 		for _, in := range env.hdr.Instrs {
@@ -1117,6 +1123,10 @@ func (c *Ctx) specQuant(env *SpecEnv, kind string, x *ast.CallExpr) Val {
 	for k, v := range env.vars {
 		sub.vars[k] = v
 	}
+	sub.bound = map[string]bool{id.Name: true}
+	for k := range env.bound {
+		sub.bound[k] = true
+	}
 	c.n++
 	vn := fmt.Sprintf("%s!q%d", id.Name, c.n)
 	var out string
@@ -1137,8 +1147,19 @@ func (c *Ctx) specQuant(env *SpecEnv, kind string, x *ast.CallExpr) Val {
 			case len(parts) == 5 && parts[0] == "define-fun" && parts[2] == "()":
 				binds = append(binds, bind{parts[1], parts[4]})
 			case len(parts) == 2 && parts[0] == "assert":
-				// facts established while evaluating the body (ranges …): they may mention
-				// let-bound names, so they are kept in order as nested hypotheses
+				// facts established while evaluating the body (ranges …).  Those that mention
+				// neither the bound variable nor a name bound in the body are global facts
+				// (e.g. heap well-formedness axioms first needed here): they stay global.
+				local := strings.Contains(parts[1], vn)
+				for _, b := range binds {
+					if b.name != "" && strings.Contains(parts[1], b.name) {
+						local = true
+					}
+				}
+				if !local {
+					c.pre = append(c.pre, l)
+					continue
+				}
 				binds = append(binds, bind{"", parts[1]})
 			case len(parts) >= 3 && (parts[0] == "declare-const" || parts[0] == "declare-fun") && (strings.HasPrefix(parts[1], "heap_") || parts[0] == "declare-fun" || strings.HasPrefix(parts[1], "glob_")):
 				// initial heap symbols / uninterpreted functions first mentioned here do not depend on the bound variable: keep them global
